@@ -31,6 +31,7 @@ func init() {
 	families["utf8"] = genUtf8
 	executors["value"] = execValue
 	executors["unm"] = execUnm
+	executors["unmre"] = execUnmRe
 	executors["vany"] = execVany
 	executors["utf8"] = execUtf8
 }
@@ -195,6 +196,46 @@ func execUnm(args []string) string {
 		pt = profile.Bool
 	}
 	return unmarshalGuarded(b, arch, basetype.BaseType(bt), pt, arr == "1")
+}
+
+// execUnmRe: UnmarshalValue on arbitrary bytes, then the returned value through MarshalAppend (byte order a2) and
+// UnmarshalValue again under the same base type and flags ("re-encoding what the decoder returned", value layer):
+// `<first outcome> m=<bytes|err|-> re=<second outcome|->`.
+func execUnmRe(args []string) string {
+	if len(args) != 6 {
+		return "bad-op"
+	}
+	bs, ok := kv(args, "b")
+	arch, ok2 := kvByte(args, "a")
+	arch2, ok6 := kvByte(args, "a2")
+	bt, ok3 := kvByte(args, "bt")
+	pb, ok4 := kv(args, "pb")
+	arr, ok5 := kv(args, "arr")
+	b, err := hex.DecodeString(bs)
+	if !ok || !ok2 || !ok3 || !ok4 || !ok5 || !ok6 || err != nil || (pb != "0" && pb != "1") || (arr != "0" && arr != "1") {
+		return "bad-op"
+	}
+	pt := profile.ProfileType(profile.Uint16)
+	if pb == "1" {
+		pt = profile.Bool
+	}
+	first := unmarshalGuarded(b, arch, basetype.BaseType(bt), pt, arr == "1")
+	if !strings.HasPrefix(first, "ok:") {
+		return first + " m=- re=-"
+	}
+	in := append([]byte(nil), b...)
+	v, _ := proto.UnmarshalValue(in, arch, basetype.BaseType(bt), pt, arr == "1")
+	// spare capacity and a prefix in the destination: MarshalAppend must append, not overwrite
+	dst := append(make([]byte, 0, 64), 0xEE, 0xEE, 0xEE)
+	out, merr := v.MarshalAppend(dst, arch2)
+	if merr != nil {
+		return first + " m=err re=-"
+	}
+	if len(out) < 3 || out[0] != 0xEE || out[1] != 0xEE || out[2] != 0xEE {
+		return first + " m=overwritten re=-"
+	}
+	m := append([]byte(nil), out[3:]...)
+	return first + " m=" + hex.EncodeToString(m) + " re=" + unmarshalGuarded(m, arch2, basetype.BaseType(bt), pt, arr == "1")
 }
 
 // named types per kind, reached only through the reflection fallback of proto.Any
@@ -774,6 +815,51 @@ func genValue(emit func(string), tier string, rng *Rng) {
 		for _, bt := range []byte{0x00, 0x02, 0x0a, 0x0d} {
 			unm([]byte{byte(x)}, 0, bt, 1, 0)
 			unm([]byte{byte(x), byte(x) ^ 0xff}, 1, bt, 1, 1)
+		}
+	}
+	// re-marshal what UnmarshalValue returned and read it again (C06_unmarshal_reencode_*): every valid base type ×
+	// lengths 0..9 (and some long ones) × array × bool flags × both byte orders on either side
+	unmre := func(b []byte, arch, arch2 int, bt byte, pb, arr int) {
+		emit(fmt.Sprintf("unmre b:%s a:%x a2:%x bt:%02x pb:%d arr:%d", hex.EncodeToString(b), arch, arch2, bt, pb, arr))
+		count("unm-reencode")
+	}
+	for _, bt := range allBaseTypes {
+		for _, n := range []int{0, 1, 2, 3, 4, 5, 6, 7, 8, 9, 15, 16, 17, 31, 64, 255} {
+			for arr := 0; arr < 2; arr++ {
+				for pb := 0; pb < 2; pb++ {
+					if pb == 1 && bt > 0x0d {
+						continue
+					}
+					b := rng.Bytes(n)
+					if bt == 0x07 {
+						for i := range b {
+							switch rng.Intn(6) {
+							case 0:
+								b[i] = 0
+							case 1, 2, 3:
+								b[i] = byte(0x20 + rng.Intn(0x5f))
+							}
+						}
+					}
+					a1 := rng.Intn(2)
+					unmre(b, a1, a1, bt, pb, arr)
+					unmre(b, a1, 1-a1, bt, pb, arr)
+				}
+			}
+		}
+	}
+	// typedef.Bool: every byte as a scalar and as an array element (KF-C01-boolarr: 0x1C used to come back as it was)
+	for x := 0; x < 256; x++ {
+		for _, bt := range []byte{0x00, 0x02, 0x0a, 0x0d} {
+			unmre([]byte{byte(x)}, 0, x&1, bt, 1, 0)
+			unmre([]byte{byte(x)}, 0, x&1, bt, 1, 1)
+			unmre([]byte{1, byte(x), 0, byte(x) ^ 0xff}, 1, x&1, bt, 1, 1)
+		}
+	}
+	for _, s := range stringCorpus {
+		for _, suffix := range []string{"", "\x00", "\x00tail", "\x00\x00"} {
+			unmre([]byte(s+suffix), 0, 1, 0x07, 0, 0)
+			unmre([]byte(s+suffix+s), 1, 0, 0x07, 0, 1)
 		}
 	}
 	// strings as wire bytes
